@@ -39,7 +39,9 @@ CONFIGS = [
     (25 * 10 ** 6, 3, 1, 2, 1500000001),
     (10 ** 9, 7, 400, 2, 1500000000),
 ]
-DTYPES = [("i2", False), ("f4", False), ("i2", True), ("f4", True), ("i4", False), ("f8", True)]
+DTYPES = [("i2", False), ("f4", False), ("i2", True), ("f4", True), ("i4", False), ("f8", True),
+          # stored in the other byte order (the conversions of the vector reads must not depend on it)
+          (">i2", True), (">i4", False), (">f4", True)]
 
 # the witness of ReaderProofs.file_list_complete_refuted_longdouble, always part of the batch
 WITNESS = {"n": 10 ** 6, "d": 3, "fc": 400, "sc": 2, "k0": 500000000799995, "dtype": "i2", "cplx": False,
@@ -236,8 +238,8 @@ def write_channel(spec):
             t = np.arange(tag, tag + cnt).reshape(ln, spec["nsub"])
             tag += cnt
             if spec["cplx"]:
-                if spec["dtype"][0] == "f":
-                    arr = (t + 1j * (-t)).astype("c8" if spec["dtype"] == "f4" else "c16")
+                if spec["dtype"].lstrip("<>=|")[0] == "f":
+                    arr = (t + 1j * (-t)).astype("c8" if spec["dtype"].lstrip("<>=|") == "f4" else "c16")
                 else:
                     arr = np.zeros(t.shape, dtype=[("r", spec["dtype"]), ("i", spec["dtype"])])
                     arr["r"] = t
@@ -257,8 +259,8 @@ def write_channel(spec):
             cnt = 3 * spec["nsub"]
             t = np.arange(tag, tag + cnt).reshape(3, spec["nsub"])
             if spec["cplx"]:
-                if spec["dtype"][0] == "f":
-                    arr = (t + 1j * (-t)).astype("c8" if spec["dtype"] == "f4" else "c16")
+                if spec["dtype"].lstrip("<>=|")[0] == "f":
+                    arr = (t + 1j * (-t)).astype("c8" if spec["dtype"].lstrip("<>=|") == "f4" else "c16")
                 else:
                     arr = np.zeros(t.shape, dtype=[("r", spec["dtype"]), ("i", spec["dtype"])])
                     arr["r"] = t
@@ -619,7 +621,7 @@ def oracle(res, spec, impl, queries, kinds, dirs, splits):
                         raw = impl.r.read_vector_raw(s, L, CHAN, None if j < 0 else j)
                         base = raw.dtype["r"] if raw.dtype.names else raw.dtype
                         exp = np.promote_types("c8" if (raw.dtype.names or raw.dtype.kind == "c") else "f4", base)
-                        okv = okv and z.dtype == exp
+                        okv = okv and z.dtype.newbyteorder("=") == exp.newbyteorder("=")
                         zc = impl.r.read_vector_c81d(s, L, CHAN, max(j, 0))
                         okv = okv and zc.dtype == np.dtype("c8") and zc.ndim == 1 and np.array_equal(zc, np.asarray(z1).astype("c8"), equal_nan=True)
                     except Exception as ex:  # noqa
